@@ -21,7 +21,7 @@ def props():
     modelmap = {"C01": "Sparse (+ Ngram, Skipgram, EdgeList, LZ, BPE)", "C02": "Sparse (assignRows), BPE, LZ", "C03": "Window, Cooc", "C04": "Coo",
                 "C05": "Vocab", "C06": "CountsBase, Ngram, Skipgram, EdgeList", "C07": "OT", "C08": "OT", "C09": "BPE",
                 "C10": "EM, BPE, Coo, Distances, Sliding (+ twins)", "C11": "EM", "C12": "Sparse (+ Ngram, LZ, BPE)", "C13": "Heap",
-                "C14": "Preprocess, Window, Cooc", "C15": "Tree", "C16": "LZ", "C17": "Analytic, InfoWeight",
+                "C14": "Preprocess, Window, Cooc", "C15": "Tree (+ Cooc: path link)", "C16": "LZ", "C17": "Analytic, InfoWeight",
                 "C18": "Analytic, Distances", "C19": "Sliding", "C20": "Histogram"}
     out = ["| id | theorems (Props/Cxx.lean) | model files | harness | evidence |", "|---|---|---|---|---|"]
     tot = 0
